@@ -1,5 +1,6 @@
 import StraxModel.Driver.Parse
 import StraxModel.Model.Mailbox
+import StraxModel.Model.Divider
 /-
   Driver ops of the mailbox transition system (shared by C05 / C06 / C13).
 
@@ -118,12 +119,102 @@ def mbRun (c : Config) (sched : List ThreadId) : String :=
     | none => if s.final then "final" else if s.enabled.isEmpty then "deadlock" else "running"
   s!"ok {";".intercalate snaps.reverse} end={status} got={showGot s} pcs={showPcs s}"
 
+/-! ### `divide_outputs`
+
+  `c05.div <rule> <cap> <lazy> <outs> <prog> <workers> <kills> <schedule>`
+     outs     per output, joined by `;`: driver mask of its subscribers, `f` appended if in `flow_freely` (`10;1f`)
+     prog     `-` | dicts joined by `,` ; dict = `x` (source raises) | components joined by `+` (`p10+f0:7`)
+     kills    `-` | `<k>u` / `<k>d` joined by `,` (kill(upstream / not) on output k)
+     schedule thread tokens `D`, `R<k>.<i>`, `W<j>`, `K<q>`
+  answer: like `c05.run`; a snapshot lists the outputs separated by `/`, then `|enabled`. -/
+
+def parseOut (s : String) : Option (List Bool × Bool) :=
+  if s.endsWith "f" then do pure (← parseBits (s.dropEnd 1).toString '1' '0', true)
+  else do pure (← parseBits s '1' '0', false)
+
+def parseDItem (s : String) : Option DItem :=
+  if s == "x" then some .raise else do pure (.item (← (s.splitOn "+").mapM parseMsgBody))
+
+def parseKill (s : String) : Option (Nat × Bool) :=
+  if s.endsWith "u" then do pure (← (s.dropEnd 1).toString.toNat?, true)
+  else if s.endsWith "d" then do pure (← (s.dropEnd 1).toString.toNat?, false)
+  else none
+
+def parseDThread (s : String) : Option DThread :=
+  if s == "D" then some .divider
+  else if s.startsWith "R" then
+    match (s.drop 1).toString.splitOn "." with
+    | [a, b] => do pure (.reader (← a.toNat?) (← b.toNat?))
+    | _ => none
+  else if s.startsWith "W" then (s.drop 1).toString.toNat?.map .worker
+  else if s.startsWith "K" then (s.drop 1).toString.toNat?.map .killer
+  else none
+
+def showDThread : DThread → String
+  | .divider => "D"
+  | .reader k i => s!"R{k}.{i}"
+  | .worker j => s!"W{j}"
+  | .killer q => s!"K{q}"
+
+def showMB (mb : MB) : String :=
+  let heap := (mb.heap.map (·.1)).mergeSort (· ≤ ·)
+  let hr := mb.subs.map fun sub => toString (Int.ofNat sub.next - 1)
+  let wf := mb.subs.map fun sub => match sub.waitingFor with
+    | none => "n"
+    | some x => toString x
+  s!"{dotted (heap.map toString)}|{dotted hr}|{dotted wf}|{b01 mb.closed}{b01 mb.killed}{b01 mb.forceKilled}|{mb.nSent}"
+
+def showDSnap (s : DSys) : String :=
+  let en := s.enabled.map showDThread
+  s!"{"/".intercalate (s.outs.map fun o => showMB o.mb)}|{if en.isEmpty then "_" else ",".intercalate en}"
+
+def showDPc : DPc → String
+  | .done => "done"
+  | .dead e => s!"dead({e.name})"
+  | _ => "run"
+
+def showDPcs (s : DSys) : String :=
+  let rs := ((List.range s.outs.length).zip s.outs).flatMap fun (k, o) =>
+    ((List.range o.readers.length).zip o.readers).map fun (i, r) => s!"R{k}.{i}:{showRPc r.pc}"
+  let ws := (List.range s.workers.length).zip s.workers |>.map fun (j, w) => s!"W{j}:{if w.isEmpty then "done" else "run"}"
+  let ks := (List.range s.killers.length).zip s.killers |>.map fun (k, w) => s!"K{k}:{if w.isNone then "done" else "run"}"
+  ",".intercalate ([s!"D:{showDPc s.dpc}"] ++ rs ++ ws ++ ks)
+
+def showDGot (s : DSys) : String :=
+  let gs := s.outs.flatMap fun o => o.readers.map fun r => dotted (r.got.map msgValue)
+  if gs.isEmpty then "-" else "/".intercalate gs
+
+def drunTrace (s : DSys) (acc : List String) (k : Nat) : List DThread → DSys × List String × Option Nat
+  | [] => (s, acc, none)
+  | t :: ts =>
+    match dstep s t with
+    | some s' => drunTrace s' (showDSnap s' :: acc) (k + 1) ts
+    | none => (s, acc, some k)
+
+def divRun (c : DConfig) (sched : List DThread) : String :=
+  let s0 := dinit c
+  let (s, snaps, stuck) := drunTrace s0 [showDSnap s0] 0 sched
+  let status := match stuck with
+    | some k => s!"stuck@{k}"
+    | none => if s.final then "final" else if s.enabled.isEmpty then "deadlock" else "running"
+  s!"ok {";".intercalate snaps.reverse} end={status} got={showDGot s} pcs={showDPcs s}"
+
 /-- ops of property C05 (and the shared mailbox model) -/
 def handleC05 : List String → Option String
   | ["c05.run", rule, cap, lazy, drive, prog, workers, kills, sched] => do
     let c ← parseMbConfig rule cap lazy drive prog workers kills
     let sched ← (splitList sched ",").mapM parseThread
     pure (mbRun c sched)
+  | ["c05.div", rule, cap, lazy, outs, prog, workers, kills, sched] => do
+    let rule ← if rule == "L" then some GateRule.lowest else if rule == "H" then some GateRule.hasMsg else none
+    let cap ← if cap == "inf" then some none else cap.toNat?.map some
+    let lazy ← parseBool lazy
+    let outs ← (outs.splitOn ";").mapM parseOut
+    let prog ← (splitList prog ",").mapM parseDItem
+    let workers ← parseWorkers workers
+    let kills ← (splitList kills ",").mapM parseKill
+    let sched ← (splitList sched ",").mapM parseDThread
+    pure (divRun ⟨cap, lazy, rule, outs, prog, workers, kills⟩ sched)
   | _ => none
 
 end Strax.Driver
